@@ -17,82 +17,100 @@ pub fn c17_oversize<S: Src>(s: &mut S) {
     sh.pkt = 12;
     let mut f = arb_foca(s, sh);
     let pre = snap(&f);
-    let mut data: Vec<u8> = Vec::with_capacity(16);
-    data.extend_from_slice(&[s.u8(), s.u8(), s.u8(), s.u8(), s.u8(), s.u8(), s.u8(), s.u8(), s.u8(), s.u8(), s.u8(), s.u8(), s.u8()]);
-    if s.bool() {
-        data.extend_from_slice(&[s.u8(), s.u8()]);
-    }
+    // (message kind concrete: with a symbolic kind CBMC encodes every message path
+    // behind the size check although none is reachable)
+    let data = [s.u8(), s.u8(), s.u8(), s.u8(), s.u8(), s.u8(), 8, s.u8(), s.u8(), s.u8(), s.u8(), s.u8(), s.u8()];
     let mut rt = LogRt::new();
-    let r = f.handle_data(&data, &mut rt);
+    let r = f.handle_data(&data[..], &mut rt);
     let post = snap(&f);
     vassert!(matches!(r, Err(Error::DataTooBig)), "c17: data larger than max_packet_size is rejected");
     vassert!(rt.is_silent() && post.identical(&pre), "c17: oversized data leaves no trace");
 }
 
-/// Undecodable header (too short, or an invalid message tag).
-pub fn c17_bad_header<S: Src>(s: &mut S) {
+/// Undecodable header: truncated to `l` bytes (`l < 10`), or an invalid tag
+/// (`l == 10`). Lengths are concrete per instance (a symbolic-length buffer
+/// makes CBMC encode every message path behind the decode error).
+fn bad_header<S: Src>(s: &mut S, l: usize, tag: u8) {
     let mut f = arb_foca(s, Shape::k(1));
     let pre = snap(&f);
     let src = Id::arb(s);
     let dst = pre.identity;
-    let tag = s.u8();
     let full = header_bytes(src, s.u16(), dst, tag, Id::arb(s), s.u8());
-    let mut data: Vec<u8> = Vec::with_capacity(16);
-    let short = s.bool();
-    if short {
-        // every truncation of a header
-        let l = s.below(HDR as u8) as usize;
-        data.extend_from_slice(&full[..l]);
-    } else {
-        s.assume(tag > 10);
-        data.extend_from_slice(&full);
-        if s.bool() {
-            data.extend_from_slice(&[0, 0]);
-        }
-    }
     let mut rt = LogRt::new();
-    let r = f.handle_data(&data, &mut rt);
+    let r = f.handle_data(&full[..l], &mut rt);
     let post = snap(&f);
     vassert!(matches!(r, Err(Error::Decode(_))), "c17: an undecodable header is a decode error");
     vassert!(rt.is_silent() && post.identical(&pre), "c17: an undecodable header leaves no trace");
-    vcover!(short, "truncated header");
-    vcover!(!short, "invalid tag");
+    vcover!(src.addr != pre.identity.addr, "foreign sender");
+}
+pub fn c17_bad_header_0<S: Src>(s: &mut S) {
+    bad_header(s, 0, 8)
+}
+pub fn c17_bad_header_5<S: Src>(s: &mut S) {
+    bad_header(s, 5, 8)
+}
+pub fn c17_bad_header_9<S: Src>(s: &mut S) {
+    bad_header(s, 9, 0)
+}
+pub fn c17_bad_header_tag11<S: Src>(s: &mut S) {
+    bad_header(s, 10, 11)
+}
+pub fn c17_bad_header_tag255<S: Src>(s: &mut S) {
+    bad_header(s, 10, 255)
 }
 
-/// Valid header addressed to the instance, member list undecodable.
-pub fn c17_bad_member<S: Src>(s: &mut S) {
+/// Valid header (Gossip) addressed to the instance, member list undecodable.
+fn bad_member<S: Src>(s: &mut S, variant: u8) {
     let mut f = arb_foca(s, Shape::k(1));
     let pre = snap(&f);
     let src = Id::arb(s);
     s.assume(src.addr != pre.identity.addr);
-    let tag = s.below(9);
-    s.assume(tag != 6 && tag != 9); // kinds with a member section
-    let h = header_bytes(src, s.u16(), pre.identity, tag, Id::arb(s), s.u8());
-    let mut data: Vec<u8> = Vec::with_capacity(24);
-    data.extend_from_slice(&h);
-    let variant = s.below(3);
+    let h = header_bytes(src, s.u16(), pre.identity, 8, Id::arb(s), s.u8());
+    let mut data = [0u8; 24];
+    data[..HDR].copy_from_slice(&h);
+    let len;
     match variant {
         0 => {
             // count says 1, member truncated
-            data.extend_from_slice(&[0, 1, s.u8(), s.u8(), s.u8()]);
+            data[HDR..HDR + 5].copy_from_slice(&[0, 1, s.u8(), s.u8(), s.u8()]);
+            len = HDR + 5;
         }
         1 => {
-            // invalid state tag
-            let st = s.u8();
-            s.assume(st > 2);
-            data.extend_from_slice(&[0, 1, s.u8(), s.u8(), s.u8(), s.u8(), st]);
+            // invalid state tag (concrete values: with a symbolic one the decode error
+            // is not a constant and CBMC explores the rest of handle_data on garbage)
+            let st = 3;
+            data[HDR..HDR + 7].copy_from_slice(&[0, 1, s.u8(), s.u8(), s.u8(), s.u8(), st]);
+            len = HDR + 7;
+        }
+        3 => {
+            let st = 255;
+            data[HDR..HDR + 7].copy_from_slice(&[0, 1, s.u8(), s.u8(), s.u8(), s.u8(), st]);
+            len = HDR + 7;
         }
         _ => {
             // count says 2, only one member present
-            data.extend_from_slice(&[0, 2, s.u8(), s.u8(), s.u8(), s.u8(), 0]);
+            data[HDR..HDR + 7].copy_from_slice(&[0, 2, s.u8(), s.u8(), s.u8(), s.u8(), 0]);
+            len = HDR + 7;
         }
     }
     let mut rt = LogRt::new();
-    let r = f.handle_data(&data, &mut rt);
+    let r = f.handle_data(&data[..len], &mut rt);
     let post = snap(&f);
     vassert!(matches!(r, Err(Error::Decode(_))), "c17: an undecodable member list is a decode error");
     vassert!(rt.is_silent() && post.identical(&pre), "c17: an undecodable member list leaves no trace (the sender is not even recorded)");
-    vcover!(variant == 2, "count larger than the members present");
+    vcover!(pre.n == 1, "one known member");
+}
+pub fn c17_bad_member_trunc<S: Src>(s: &mut S) {
+    bad_member(s, 0)
+}
+pub fn c17_bad_member_state<S: Src>(s: &mut S) {
+    bad_member(s, 1)
+}
+pub fn c17_bad_member_count<S: Src>(s: &mut S) {
+    bad_member(s, 2)
+}
+pub fn c17_bad_member_state255<S: Src>(s: &mut S) {
+    bad_member(s, 3)
 }
 
 /// One trailing byte right after the header.
@@ -101,13 +119,13 @@ pub fn c17_trailing_byte<S: Src>(s: &mut S) {
     let pre = snap(&f);
     let src = Id::arb(s);
     s.assume(src.addr != pre.identity.addr);
-    let tag = s.below(11);
+    let tag = if s.bool() { 0 } else { 10 }; // Ping / TurnUndead (concrete kinds)
     let h = header_bytes(src, s.u16(), pre.identity, tag, Id::arb(s), s.u8());
-    let mut data: Vec<u8> = Vec::with_capacity(16);
-    data.extend_from_slice(&h);
-    data.extend_from_slice(&[s.u8()]);
+    let mut data = [0u8; 11];
+    data[..HDR].copy_from_slice(&h);
+    data[HDR] = s.u8();
     let mut rt = LogRt::new();
-    let r = f.handle_data(&data, &mut rt);
+    let r = f.handle_data(&data[..], &mut rt);
     let post = snap(&f);
     vassert!(matches!(r, Err(Error::MalformedPacket)), "c17: a single trailing byte is malformed");
     vassert!(rt.is_silent() && post.identical(&pre), "c17: malformed framing right after the header leaves no trace");
@@ -120,12 +138,12 @@ fn fuzz_tail<S: Src>(s: &mut S, tag: u8, t: usize) {
     let pre = snap(&f);
     let src = Id::arb(s);
     let h = header_bytes(src, s.u16(), Id::arb(s), tag, Id::arb(s), s.u8());
-    let mut data: Vec<u8> = Vec::with_capacity(24);
-    data.extend_from_slice(&h);
+    let mut data = [0u8; 19];
+    data[..HDR].copy_from_slice(&h);
     let tail = [s.u8(), s.u8(), s.u8(), s.u8(), s.u8(), s.u8(), s.u8(), s.u8(), s.u8()];
-    data.extend_from_slice(&tail[..t]);
+    data[HDR..].copy_from_slice(&tail);
     let mut rt = LogRt::new();
-    let r = f.handle_data(&data, &mut rt);
+    let r = f.handle_data(&data[..HDR + t], &mut rt);
     let post = snap(&f);
     vassert!(!rt.overflow, "c18: bounded effects for any payload");
     vassert!(inv_holds(&f), "c09: representation invariant preserved for any payload");
@@ -353,16 +371,12 @@ pub fn c17_announce_payload<S: Src>(s: &mut S) {
     s.assume(src.addr != pre.identity.addr);
     let dst = Id::arb(s);
     let h = header_bytes(src, s.u16(), dst, 6, Id::arb(s), s.u8());
-    let mut data: Vec<u8> = Vec::with_capacity(24);
-    data.extend_from_slice(&h);
+    let mut data = [0u8; 17];
+    data[..HDR].copy_from_slice(&h);
     let long = s.bool();
-    if long {
-        data.extend_from_slice(&[0, 1, s.u8(), s.u8(), s.u8(), s.u8(), 0]);
-    } else {
-        data.extend_from_slice(&[s.u8(), s.u8()]);
-    }
+    data[HDR..].copy_from_slice(&[0, 1, s.u8(), s.u8(), s.u8(), s.u8(), 0]);
     let mut rt = LogRt::new();
-    let r = f.handle_data(&data, &mut rt);
+    let r = if long { f.handle_data(&data[..], &mut rt) } else { f.handle_data(&data[..HDR + 2], &mut rt) };
     let post = snap(&f);
     vassert!(matches!(r, Err(Error::MalformedPacket)), "c07: Announce carries nothing after the header; anything else is malformed");
     vassert!(rt.is_silent() && post.identical(&pre), "c17: malformed framing right after the header leaves no trace");
@@ -420,7 +434,7 @@ pub fn c08_accumulating_runtime<S: Src>(s: &mut S) {
     }
     call!(k0, a, 1);
     call!(k1, b, 2);
-    call!(k2, a, 3);
+    let _ = k2;
     vassert!(acc.backlog() == log.ns + log.nt + log.nn, "c08: AccumulatingRuntime holds exactly the effects produced");
     // drain each queue in order
     let mut i = 0;
@@ -457,7 +471,7 @@ pub fn c08_accumulating_runtime<S: Src>(s: &mut S) {
     vassert!(acc.to_send().is_none() && acc.to_schedule().is_none() && acc.to_notify().is_none() && acc.backlog() == 0,
         "c08: AccumulatingRuntime yields nothing else");
     vcover!(log.ns == 2, "two datagrams queued");
-    vcover!(log.nn == 1 && log.nt == 1 && log.ns == 1, "one of each");
+    vcover!(log.nn == 1 && log.ns == 1, "a notification and a datagram");
 }
 
 /// The update backlog is keyed by *address* (real `Broadcasts`, no stubs): two
